@@ -465,12 +465,14 @@ class BehavioralRTLIRTypeCheckVisitorL1( bir.BehavioralRTLIRNodeVisitor ):
         raise PyMTLTypeError( s.blk, node.ast, 'slice bounds must be constant!' )
 
   def _get_nbits_from_value( s, value ):
+    # Integer arithmetic: ceil(log2(x)) in floating point is off by one for
+    # large values (e.g. 2**53+1, 2**63).
     if -1 <= value <= 1:
       return 1
     if value < 0:
-      return math.ceil(math.log2(abs(value)))
+      return (abs(value)-1).bit_length() # == ceil(log2(abs(value)))
     else:
-      return math.ceil(math.log2(value+1))
+      return value.bit_length()          # == ceil(log2(value+1))
 
 #-------------------------------------------------------------------------
 # Enforce types for all terms whose types are inferred (implicit)
